@@ -37,34 +37,19 @@ def _pattern(steps, size0):
 
 
 def signature(prop, kind, scenario, detail):
+    # F-ts1 was repaired in /repo (0e8b34c); its scenario class is no longer singled out: every
+    # mismatch is named by shape of the series and kind of question.
     if prop != "C61":
         return None
     what = detail.get("what", "")
     try:
         if kind == "replay" and isinstance(scenario, list):
-            # the scenario class tag is computed by the specification (Gen.tla, StaleFrom)
             hdr = scenario[0]
-            step = detail.get("step")
-            stale = hdr.get("stale_from", 0)
             q = what.split("(")[0].split("[")[0].strip().replace(" ", "-")
-            if stale and isinstance(step, int) and step >= stale and not what.startswith("Total"):
-                return "F-ts1;add-between-pendingTime-and-newest-bucket-after-Latest;%s" % (
-                    "Range" if what.startswith("Range") else "Latest")
             return "%s;%s;nlevels=%d" % (hdr.get("kind"), q, len(hdr["sizes"]))
         if kind == "trace" and isinstance(scenario, dict):
             lines = scenario.get("lines") or []
-            hdr, last = lines[0], lines[-1]
-            steps = []
-            for ln in lines[1:]:
-                if ln.get("e") == "add":
-                    steps.append(("add", ln["at"]))
-                elif ln.get("e") == "latest":
-                    steps.append(("clock", ln["now"]))
-            e = last.get("e")
-            if e in ("range", "latest") and _pattern(steps, hdr["sizes"][0]):
-                return "F-ts1;add-between-pendingTime-and-newest-bucket-after-Latest;%s" % (
-                    "Range" if e == "range" else "Latest")
-            return "trace;%s;nlevels=%d" % (e, len(hdr["sizes"]))
+            return "trace;%s;nlevels=%d" % (lines[-1].get("e"), len(lines[0]["sizes"]))
     except Exception:
         return None
     return None
